@@ -1288,15 +1288,26 @@ func c06F32Bits(f float32) uint32 {
 	return math.Float32bits(f)
 }
 
+// values for Set hold neither a NaN nor -0.0: the setters decide "same value" with the float comparison (a NaN
+// differs from itself: UPDATED for the same bits; -0.0 equals +0.0: NOTHING_CHANGED and the old sign stays), where
+// the model compares bit patterns.  Both reach a record through Increment steps and conditions only.
+func c06SetF64(rng *rand.Rand) float64 {
+	for {
+		if f := c06Pick(rng, c06F64s); f == f && !(f == 0 && math.Signbit(f)) {
+			return f
+		}
+	}
+}
+
 func c06Value(rng *rand.Rand) string {
 	switch rng.Intn(16) {
 	case 0, 1, 2, 3, 4:
 		ty := c06Pick(rng, c06IntTys)
 		return ty + ":" + c06IntVal(rng, ty)
 	case 5:
-		return fmt.Sprintf("f64:%016x", c06F64Bits(c06Pick(rng, c06F64s)))
+		return fmt.Sprintf("f64:%016x", c06F64Bits(c06SetF64(rng)))
 	case 6:
-		return fmt.Sprintf("f32:%08x", c06F32Bits(float32(c06Pick(rng, c06F64s))))
+		return fmt.Sprintf("f32:%08x", c06F32Bits(float32(c06SetF64(rng))))
 	case 7, 8:
 		return "str:" + hex.EncodeToString([]byte(c06Pick(rng, []string{"", "", "a", "hello", "0"})))
 	case 9:
